@@ -78,7 +78,7 @@ func (fx *fixture) init() {
 	}
 	fx.f.ResetServices(fx.ctx)
 	vsched.Settle()
-	pt, err := transformers.TrxToProtoTrx(fx.fund)
+	pt, err := world.TrxToProto(fx.fund)
 	if err != nil {
 		panic(err)
 	}
@@ -170,7 +170,7 @@ type request struct {
 }
 
 func (fx *fixture) protoTx(t transaction.Transaction) *protobufcompiled.Transaction {
-	pt, err := transformers.TrxToProtoTrx(t)
+	pt, err := world.TrxToProto(t)
 	if err != nil {
 		panic(err)
 	}
